@@ -12,6 +12,7 @@ import (
 	"github.com/iden3/go-merkletree-sql/v2"
 	"github.com/iden3/go-schema-processor/v2/loaders"
 	"github.com/iden3/go-schema-processor/v2/merklize"
+	"github.com/iden3/go-schema-processor/v2/verifiable"
 )
 
 // C20: randomized mixes of merklize / proof / hash / load on 2-64 goroutines sharing one loader, one cache and one
@@ -199,6 +200,83 @@ func waitOrHang(wg *sync.WaitGroup, d time.Duration, onHang func()) {
 	}
 }
 
+// one credential object (with a proof) shared by many goroutines that merklize it, build claims from it, read its proof's claim
+// and verify it: every result equals the sequential one, the object is only read
+func emitSharedCredential(out *Out, r *Rng, goroutines int) {
+	s := newVerifySetup(r, false, 0)
+	s.vc.Proof = verifiable.CredentialProofs{s.is.SignBJJ(s.claim)}
+	loader := s.c.loader()
+	merklize.SetDocumentLoader(loader)
+	reg := &verifiable.CredentialStatusResolverRegistry{}
+	var regMu sync.Mutex
+	reg.Register(verifiable.SparseMerkleTreeProof, statusResolver{func(st verifiable.CredentialStatus) (verifiable.RevocationStatus, error) {
+		regMu.Lock()
+		defer regMu.Unlock()
+		return s.is.RevStatus(st.RevocationNonce), nil
+	}})
+	ctx := context.Background()
+	mz0, err := s.vc.Merklize(ctx, merklize.WithDocumentLoader(loader))
+	if err != nil {
+		return
+	}
+	root0 := mz0.Root().BigInt().String()
+	cl0, _ := s.vc.GetCoreClaimFromProof(verifiable.BJJSignatureProofType)
+	hex0, _ := cl0.Hex()
+	var mu sync.Mutex
+	var why []string
+	fail := func(m string) {
+		mu.Lock()
+		if len(why) < 4 {
+			why = append(why, m)
+		}
+		mu.Unlock()
+	}
+	var wg sync.WaitGroup
+	for gi := 0; gi < goroutines; gi++ {
+		wg.Add(1)
+		go func(gi int) {
+			defer wg.Done()
+			defer func() {
+				if rec := recover(); rec != nil {
+					fail(fmt.Sprintf("goroutine panicked: %v", rec))
+				}
+			}()
+			for k := 0; k < 6; k++ {
+				switch (gi + k) % 4 {
+				case 0:
+					mz, err := s.vc.Merklize(ctx, merklize.WithDocumentLoader(loader))
+					if err != nil || mz.Root().BigInt().String() != root0 {
+						fail(fmt.Sprintf("concurrent Merklize of one shared credential object: %v (sequentially: root %s)", err, trunc(root0, 20)))
+					}
+				case 1:
+					cl, err := s.vc.GetCoreClaimFromProof(verifiable.BJJSignatureProofType)
+					if err != nil {
+						fail(fmt.Sprintf("concurrent GetCoreClaimFromProof on one shared credential object: %v", err))
+					} else if h, _ := cl.Hex(); h != hex0 {
+						fail("concurrent GetCoreClaimFromProof gives another claim than sequentially")
+					}
+				case 2:
+					calls := 0
+					if err := s.vc.VerifyProof(ctx, verifiable.BJJSignatureProofType, resolverCfg{mode: "unpublished"}.resolver(&calls), verifiable.WithStatusResolverRegistry(reg)); err != nil {
+						fail(fmt.Sprintf("concurrent VerifyProof of one shared credential object: %v (sequentially it verifies)", err))
+					}
+				default:
+					if _, err := s.vc.ToCoreClaim(ctx, &verifiable.CoreClaimOptions{RevNonce: 1, MerklizerOpts: []merklize.MerklizeOption{merklize.WithDocumentLoader(loader)}}); err != nil {
+						fail(fmt.Sprintf("concurrent ToCoreClaim of one shared credential object: %v", err))
+					}
+				}
+			}
+		}(gi)
+	}
+	waitOrHang(&wg, 60*time.Second, func() { fail("hang: goroutines sharing one credential object did not finish within 60 s") })
+	if len(s.vc.Proof) != 1 {
+		fail(fmt.Sprintf("the shared credential object has %d proofs after the concurrent use, it had 1", len(s.vc.Proof)))
+	}
+	mu.Lock()
+	defer mu.Unlock()
+	out.Emit(Case{Op: "none", In: J{"sharedCredential": goroutines}, Impl: J{}, Prop: propOf(append([]string{}, why...)), Tags: []string{"shared-credential", fmt.Sprintf("goroutines:%d", goroutines)}, NT: true})
+}
+
 // slowOrigin answers like the scripted origin, a little later: loads overlap
 type slowOrigin struct {
 	inner http.RoundTripper
@@ -277,6 +355,7 @@ func genC20(out *Out, r *Rng, tier string, n int, shard int) {
 		emitMix(out, r, gs, 6+r.Intn(20))
 		if i == 0 {
 			emitBurst(out, r, []int{24, 48, 96}[r.Intn(3)])
+			emitSharedCredential(out, r, []int{4, 16, 32}[r.Intn(3)])
 		}
 	}
 }
